@@ -124,6 +124,8 @@ class Session:
                     continue
                 if "cls" in ent:
                     self._proj_obj(tid, self.tops[tid], ent["cls"], v, sz)
+                elif ent.get("kind") == "enum":
+                    v[tid] = enc(int(self.tops[tid].get_val()), 32, True)
                 else:
                     v[tid] = enc(self.tops[tid].get_val(), ent["w"], ent["signed"])
         except Exception as e:       # an access path that raises is reported through the projection
@@ -199,6 +201,8 @@ class Session:
     def enum_key(self, path):
         m = re.match(r"([A-Za-z_][A-Za-z_0-9]*)(.*)", path)
         ent = [e for e in self.world["population"] if e["id"] == m.group(1)][0]
+        if "cls" not in ent:
+            return ("", ent["id"])
         cls = ent["cls"]
         owner = cls
         names = re.findall(r"\.([A-Za-z_][A-Za-z_0-9]*)", m.group(2))
@@ -284,7 +288,7 @@ class Session:
             if "cls" in ent:
                 self.tops[op["o"]] = self.classes[ent["cls"]]()
             else:
-                o = worlds.build_free(ent)
+                o = worlds.build_free(ent, self.classes["__enums__"])
                 o.get_model()
                 self.tops[op["o"]] = o
         if fault:
@@ -447,6 +451,7 @@ class Session:
                 except Exception:
                     views[lp] = {"error": [[9]]}
         ev["views"] = views
+        self.cb_script = {}
         self.emit(ev)
 
     @staticmethod
@@ -455,6 +460,8 @@ class Session:
                 "inline": call.get("inline", [])}
 
     def op_probe(self, op):
+        self.cb_script = {}            # callbacks only record during probes
+        self.cb_log = []
         call = op["call"]
         paths = op["paths"]
         cap = op.get("cap", 4096)
@@ -468,11 +475,39 @@ class Session:
         total = 1
         for d in doms:
             total *= len(d)
-        if total <= cap:
+        saved = self.project()
+        if op.get("mode") == "around":
+            # rows = a few real solutions of the unpinned call plus all their single-field mutations
+            sols = []
+            for _ in range(op.get("nsol", 3)):
+                if self.guarded(lambda: self._do_call(call)) == "none":
+                    cur = self.project()["v"]
+                    sols.append(tuple(worlds.unbits(cur[p]) for p in paths))
+            if not sols:
+                sols = [tuple(worlds.unbits(saved["v"][p]) for p in paths)]
+            combos, seen = [], set()
+            for sol in sols:
+                cand = [sol]
+                for j, d in enumerate(doms):
+                    vals = d if len(d) <= 4 else self.rnd.sample(d, 4)
+                    cand += [sol[:j] + (v,) + sol[j + 1:] for v in vals if v != sol[j]]
+                for c_ in cand:
+                    if c_ not in seen:
+                        seen.add(c_)
+                        combos.append(c_)
+            combos = combos[:cap]
+            # put the pre-probe values back before pinning (the pins of non-random paths must match them)
+            cur = self.project()
+            for p_, b_ in saved["v"].items():
+                if cur["v"].get(p_) != b_ and len(b_) == self._w(p_):
+                    try:
+                        self.assign(p_, b_)
+                    except Exception:
+                        pass
+        elif total <= cap:
             combos = list(itertools.product(*doms))
         else:
             combos = [tuple(self.rnd.choice(d) for d in doms) for _ in range(cap)]
-        saved = self.project()
         rows = []
         others = {}
         for combo in combos:
